@@ -399,7 +399,7 @@ def _bilinear(W, repo, record, front):
             n += 1
             # path form: every construction of the bi-affine result DecRoAffine(..) in the method is
             # reached only past a raising test of `not self.fixed`
-            from rsx.flow import MustFlow
+            from rsx.flow import MustFlow, holds
             from rsx.loader import body_stmts
 
             class _G(MustFlow):
@@ -410,8 +410,7 @@ def _bilinear(W, repo, record, front):
                 def visit(self, node, state):
                     for c in ast.walk(node):
                         if isinstance(c, ast.Call) and isinstance(c.func, ast.Name) and c.func.id == 'DecRoAffine':
-                            self.sites.append(('cond', False, 'not self.fixed') in state or
-                                              ('cond', True, 'self.fixed') in state)
+                            self.sites.append(holds(state, 'self.fixed'))
             g = _G()
             g.run(body_stmts(fi))
             if not g.sites:
@@ -422,9 +421,23 @@ def _bilinear(W, repo, record, front):
                        'the bi-affine result is returned without `if not self.fixed: raise`')
         fi = repo.func('lp.Affine.__matmul__')
         n += 1
-        txt = ntext(fi.node)
-        if 'if not other.fixed' not in txt:
-            record('Affine', '__matmul__', 'random @ adaptive decision', 'guard `not other.fixed` is gone')
+
+        class _G2(MustFlow):
+            def __init__(self):
+                super().__init__()
+                self.sites = []
+
+            def visit(self, node, state):
+                for c in ast.walk(node):
+                    if isinstance(c, ast.Call) and isinstance(c.func, ast.Name) and c.func.id == 'DecRoAffine':
+                        self.sites.append(holds(state, '%s.fixed' % fi.params[1]))
+        g2 = _G2()
+        g2.run(body_stmts(fi))
+        if not g2.sites:
+            raise AnalysisError('R11: lp.Affine.__matmul__ no longer constructs DecRoAffine(..)')
+        if not all(g2.sites):
+            record('Affine', '__matmul__', 'random @ adaptive decision',
+                   'a DecRoAffine is built from an operand that is not known to be fixed (guard `not other.fixed` -> raise is gone)')
     else:
         for cname in ('DecRule', 'DecRuleSub'):
             ci = repo.cls('lp.' + cname)
@@ -464,10 +477,14 @@ def _setter_curvature(repo, record):
 
             def visit(self, node, state):
                 if isinstance(node, ast.Assign) and any(is_self_attr(t, 'obj') for t in node.targets):
+                    # some known clause says: not (obj.sign == want [and isinstance(obj, ..)])
+                    from rsx.flow import clauses_of
+                    atom = '%s.sign == %d' % (par, want)
                     ok = False
-                    for f in state:
-                        if isinstance(f, tuple) and f[0] == 'cond' and f[1] is False and \
-                                ('%s.sign == %d' % (par, want)) in f[2].replace('(', '').replace(')', ''):
+                    for c in clauses_of(state):
+                        if (atom, False) in c and all(
+                                pol is False and (a == atom or a.startswith('isinstance(%s,' % par))
+                                for a, pol in c):
                             ok = True
                     self.stores.append(ok)
         fl = _F()
